@@ -61,6 +61,9 @@ func getProfile(name string, seed int64) *Profile {
 		p.Pads = true
 		p.Colls = 1
 		p.Invalid = 0.05
+	case "shrinkreopen": // C05: a data file of several MB, mostly freed, reopened twice
+		p.Colls = 1
+		p.Invalid = 0
 	case "runs": // C01 C15 C17: runs of more than 32 equal index keys
 		p.Colls = 1
 		p.Invalid = 0
@@ -185,6 +188,8 @@ func generate(p *Profile, seed int64) ([]E, *Universe) {
 		return g.HistoryLongStr(), g.U
 	case p.Name == "runs":
 		return g.HistoryRuns(), g.U
+	case p.Name == "shrinkreopen":
+		return g.HistoryShrinkReopen(), g.U
 	case p.Name == "algebra":
 		return g.HistoryAlgebra(), g.U
 	case p.Name == "huge":
